@@ -163,7 +163,11 @@ TEXT = {
           "(C12_root_constraint); and the sweep is exact: for strictly increasing roots and any satisfaction vector of the 2n+1 cells, a "
           "real v lies in one of the returned intervals iff the cell containing v is satisfied (C12_sweep, via run_is_union: the interval "
           "from the lower boundary of cell s to the upper boundary of cell e is the union of the cells s..e; cell_exists: the cells "
-          "cover the line).",
+          "cover the line). The links are composed in one theorem: C12_feasible_exact - whenever the reference `feasible` answers, "
+          "its root list denotes exactly the real roots of the specialised polynomial and a real v lies in the returned set iff the "
+          "(possibly negated) condition holds for the specialised polynomial at v (uses C11_rootsUnder_exact, separate_spec, "
+          "samples_spec, sign_at_rat = C10_sign_exact at rational points, sign_const = intermediate value theorem, C12_sweep); "
+          "C12_feasible_exact_zero covers specialisations that vanish identically (identicallyZero_sound).",
   "design_ref": "5.12",
   "note": "the C++ helper poly::infeasible_regions is not exercised (C harnesses only)",
   "technique": "Lean 4 proved root-constraint table and sign procedure (validator) + per-output validation of the C results",
